@@ -126,7 +126,7 @@ class Helper:
             isinstance(n, ast.Call) and ((isinstance(n.func, ast.Name) and n.func.id == self.name)
                                          or (isinstance(n.func, ast.Attribute) and n.func.attr == self.name))
             for n in ast.walk(node))
-        self.has_nested = any(isinstance(n, (*FuncNode, ast.ClassDef, ast.Lambda)) for n in own)
+        self.has_nested = any(isinstance(n, (*FuncNode, ast.ClassDef)) for n in own)
         self.body = _strip_doc(node.body)  # type: ignore[attr-defined]
 
     def gen_ok(self) -> bool:
